@@ -101,7 +101,7 @@ func genPlan(t *rapid.T, tier string) any {
 		f.K = rapid.IntRange(0, 63).Draw(t, "k")
 		f.Action = rapid.SampledFrom(actions).Draw(t, "action")
 		f.Errno = rapid.SampledFrom([]string{"EIO", "ENOSPC", "EDQUOT"}).Draw(t, "errno")
-		f.Frac = rapid.SampledFrom([]int{0, 1, 500, 999}).Draw(t, "frac")
+		f.Frac = rapid.SampledFrom([]int{0, 1, 250, 500, 700, 800, 900, 999}).Draw(t, "frac")
 	default:
 		f.Kind = "reader"
 		p.Via = "reader"
@@ -144,8 +144,10 @@ func (e *env) verifyAll(c *cache.Cache, when string, checkUnrelated bool) {
 		id := cachekit.ActionID(i)
 		data, ent, err := c.GetBytes(id)
 		if err == nil {
-			if sha256.Sum256(data) != ent.OutputID || int64(len(data)) != ent.Size {
-				out.Violate("bad-bytes", "%s: GetBytes(id%d) returned %d bytes that do not hash to the reported OutputID %x (size %d)", when, i, len(data), ent.OutputID[:4], ent.Size)
+			// the statement promises the hash, not the size field: an index entry torn by a halt in the middle
+			// of its write can legitimately pair the new output with the old entry's size
+			if sha256.Sum256(data) != ent.OutputID {
+				out.Violate("bad-bytes", "%s: GetBytes(id%d) returned %d bytes that do not hash to the reported OutputID %x", when, i, len(data), ent.OutputID[:4])
 			}
 		}
 		file, fent, ferr := c.GetFile(id)
